@@ -3,4 +3,6 @@
 From Coq Require Import Extraction ExtrOcamlBasic ZArith.
 From V Require Import C09.Model.
 Extraction "c09_model.ml" step run init_state filter_spec cache_fresh_b disk_bad_kind disk_ok_b guarded pages
-  member_exact bkey_eqb lookup_window cand_item do_query_pre do_rpc_events walk_blocks Z.of_N.
+  member_exact bkey_eqb lookup_window cand_item do_query_pre do_rpc_events walk_blocks
+  filter_spec_pre pre_start range_blocks resolve_bid
+  page_chunk_ok page_empty_ok page_progress_ok pages_ok page_count_ok page_bound Z.of_N.
